@@ -2,12 +2,12 @@ CFG = {
     "lean_targets": ["Norad.Props.C17"],
     "audit": "Norad/Audit/C17.lean",
     "rule": ("Font::load_requested_data vs Font::load on generated format-3 trees (0-3 extra layers in varying file order, default layer named or not, every optional "
-             "file present, guidelines with and without identifiers and object libs, data/ and images/): exhaustive over the 2^6 request switches x 10 layer-filter shapes "
-             "(all, none, default only, by name, by directory, always true, always false, default + by name, filter then layers(true), layers(true) then default_layer(false)); trees with every optional file present and trees with subsets of them absent, each in two variants: intact tree, and every file outside the "
+             "file present, guidelines with and without identifiers and object libs, data/ and images/): exhaustive over the 2^6 request switches x 11 layer-filter shapes "
+             "(all, none, default only, by name, by directory, always true, always false, default + by name, filter then layers(true), layers(true) then default_layer(false), everything but the default directory); default layer listed first / in the middle / last in layercontents.plist, a layer directory `GLYPHS` next to `glyphs`; trees with every optional file present and trees with subsets of them absent, each in two variants: intact tree, and every file outside the "
              "read set overwritten with garbage (un-selected layers lose or corrupt their contents.plist and glifs, un-requested images/ gets a sub-directory, store files "
              "always garbage). non-trivial = anything but the full request; distinct by recipe"),
     "exhaustive": {"quick": True, "thorough": True},
-    "exhaustive_note": "all 64 switch combinations x 10 filter shapes per generated tree (6 trees quick, 60 thorough); the trees are sampled",
+    "exhaustive_note": "all 64 switch combinations x 11 filter shapes per generated tree (6 trees quick, 60 thorough); the trees are sampled",
     "trusted_base": COMMON_TRUST + [
         "parsing is uninterpreted (plist / glif readers are third-party or other properties): the harness tells the driver the parsed value of every file it wrote",
         "std::fs vs the abstract file system; read_dir order and HashMap order of the stores are compared as sets",
